@@ -141,11 +141,12 @@ def _run(prop, tier, seed, only, known, stage, t0):
             tmo = int(os.environ["VERIF_TIMEOUT"])
         # thorough gives the heavy instances more room; light ones (<= 4 GB) keep a small cap so many run at once
         mem = h.mem_gb if tier == "quick" else (max(h.mem_gb, 12) if h.mem_gb > 4 else 2 * h.mem_gb)
-        budget.acquire(mem)
+        charge = min(mem, h.weight_gb) if h.weight_gb else mem
+        budget.acquire(charge)
         try:
             r = kani.run_harness(stage, h.full, h.profile, tmo, mem, solver=solver, should_panic=h.should_panic)
         finally:
-            budget.release(mem)
+            budget.release(charge)
         if r.verdict != "success":
             _save_log(prop, h, solver, r)
         log("  %-44s %-1s %-7s %-12s %6.1fs  checks=%d failed=%d %s" % (
